@@ -268,7 +268,13 @@ pub fn gen_polygon(src: &mut Src) -> (Vec<P>, &'static str) {
         1 => {
             // U shape whose bounding-box centre is outside
             let (w, h, t) = (src.i64_in(6, 30), src.i64_in(6, 30), src.i64_in(1, 2));
-            let u = vec![(0, 0), (w, 0), (w, h), (w - t, h), (w - t, t), (t, t), (t, h), (0, h)];
+            // (one arm may be shorter: a J; its top may sit level with the centre of the bounding box)
+            let hr = match src.weighted(&[3, 1, 1]) {
+                0 => h,
+                1 => (h / 2).max(t + 1),
+                _ => src.i64_in(t + 1, h),
+            };
+            let u = vec![(0, 0), (w, 0), (w, hr), (w - t, hr), (w - t, t), (t, t), (t, h), (0, h)];
             let mut v = fit(u, l_shape);
             let r = src.index(v.len());
             v.rotate_left(r);
